@@ -906,11 +906,12 @@ def parseHeaderLine (st : St) : P (Nat × Nat × Bool) :=
 
 def plainErr {α} (st : St) : Except Fail α := .error ⟨.plain, st.alloc, st.maxDepth⟩
 
-/-- `parseText` after its `skipComment`: a `.` means an empty body. -/
+/-- `parseText` after its `skipComment`: a `.` means an empty body.  The fuel `2·(bytes left) + 1`
+    never runs out (`fuel_suffices`: every larger fuel gives the same result). -/
 def parseBody (O : Oracle) (strict : Bool) (st : St) : P Item :=
   match peekNS st with
   | (some 46, st) => .ok (.empty, st)
-  | (_, st) => parseItem O strict (st.data.length + 1) 1 st
+  | (_, st) => parseItem O strict (2 * st.data.length + 1) 1 st
 
 /-- `parseMsg(headerOnly)`: `none` = no more messages. -/
 def parseMsg (O : Oracle) (strict headerOnly : Bool) (st : St) : P (Option Msg) :=
